@@ -115,8 +115,14 @@ def upper(s):
     return s
 
 
+def _unwrap(r):
+    """The record a WrappedRecord (compiled selector) stands for; any other object as is."""
+    return r.record if isinstance(r, WrappedRecord) else r
+
+
 def names(r):
     """Return the available names as a set in the Record otherwise ['UnknownRecord']."""
+    r = _unwrap(r)
     if isinstance(r, GroupedRecord):
         return set(sub_record._desc.name for sub_record in r.records)
     if isinstance(r, (Record, WrappedRecord)):
@@ -133,7 +139,7 @@ def name(r):
 
 def get_type(obj):
     """Return the type of the Object as 'str'."""
-    return str(type(obj))
+    return str(type(_unwrap(obj)))
 
 
 def has_field(r, field):
